@@ -41,7 +41,7 @@ TOKEN_ALPHABET = "abcXYZ019_|.-[]+:;,/#=@"
 def budget(tier):
     if tier == "quick":
         return {"examples": 4000, "shards": 16, "time_s": 60}
-    return {"examples": 160000, "shards": 16, "time_s": 900, "hard_s": 3600}
+    return {"examples": 400000, "shards": 16, "time_s": 1500, "hard_s": 3600}
 
 
 token = st.text(alphabet=TOKEN_ALPHABET, min_size=1, max_size=8)
@@ -149,13 +149,13 @@ def extra(tier, seed, shard, nshards, stats):
     """Coverage-guided tier (atheris / libFuzzer) - thorough only, shards 0-3 run one campaign each."""
     if tier != "thorough" or shard >= 4:
         return
-    try:
-        sys.path.insert(0, str(VERIF / ".deps"))
-        import atheris  # noqa: F401
-    except Exception as e:  # noqa: BLE001
-        stats.notes["atheris"] = f"unavailable: {e}"
+    import core
+
+    dep = core.ensure_dep("atheris")
+    if dep is None:
+        stats.notes["atheris"] = "unavailable: not importable and not installable from the offline wheelhouse"
         return
-    runs = 150000
+    runs = 600000
     work = Path(tempfile.mkdtemp(prefix="c19fuzz_", dir="/dev/shm" if os.path.isdir("/dev/shm") else None))
     try:
         corpus = work / "corpus"
@@ -169,7 +169,7 @@ def extra(tier, seed, shard, nshards, stats):
         env = dict(os.environ)
         env["VERIF_REPO"] = REPO
         env["C19_FAIL_FILE"] = str(fail)
-        env["PYTHONPATH"] = str(VERIF / ".deps") + os.pathsep + env.get("PYTHONPATH", "")
+        env["PYTHONPATH"] = dep + os.pathsep + env.get("PYTHONPATH", "")
         cmd = [sys.executable, str(HARNESS / "fuzz" / "c19_fuzz.py"), f"-runs={runs}", f"-seed={seed * 100 + shard + 1}",
                "-max_len=512", f"-artifact_prefix={work}/", str(corpus)]
         p = subprocess.run(cmd, env=env, capture_output=True, text=True, timeout=3000)
